@@ -175,6 +175,7 @@ EXTRA = {
     "C10": " Every document is read through parse_str and parse_slice; both must canonicalize identically.",
     "C15": " Pumped objects also with every value wrapped in a two-member object whose members are swapped in every other entry; Meta<Value, M> and Vec<Value> carriers.",
     "C16": " Std containers and smart pointers (Box, Cow, arrays, 1-tuples, sets, deques, nested options, NonZero, Duration, Range, Result, paths, addresses) and a collect_str type as value and key.",
+    "C19": " Boundary literals: the limits of every integer and float width (type-suffixed), one step inside each, and the decimal thresholds, in three contexts; every program is built under catch_unwind so that a panic is attributed to its program.",
     "C17": " Coherence: Object's own Serialize / Deserialize impls must agree with Value's on every object, duplicates included.",
 }
 
